@@ -19,6 +19,7 @@ import MW.Lemmas.PendHistRun
 import MW.Lemmas.PendHistObs
 import MW.Lemmas.PendHistEx
 import MW.Lemmas.PendHistCredRun
+import MW.Lemmas.PendHistCredEx
 import MW.Lemmas.TxmgrCodecRec
 namespace MW.Props.C09
 open MW MW.Model.Ledger MW.Lemmas.LedgerPending
@@ -496,6 +497,75 @@ theorem exDomainC : ∀ x ∈ worldsH exE exW0 exEvs, HOKc exRankH exE x.1 x.2 :
 
 example : (runH exE exW0 exEvs).s.pendCred = [] ∧ pendingCredits exE.env (runH exE exW0 exEvs).sp.pend = [] := by decide
 
+-- ---------------------------------------------------------------- Round 6: the DISCONNECT step, hence all histories
+
+open MW.Lemmas.PendHist.CredRb in
+/-- ROLLBACK RE-CREATES THE RECORDS, the loop.  The per-record loop of Rollback over the recorded ids `l` of block `b`
+    (distinct, each with a readable record of a transaction of `b`; from ANY store) is a `CredGrow` over the
+    transactions `t ∈ b.txs` with `t.id ∈ l`: a pending-credit record after the loop was there before or sits at
+    (t.id, j), `t` non-coinbase, `j` an output index, and carries amount / class / script hash of the credit the START
+    store has under (t.id, block, j); every such credit yields a record; the deposit bucket gains exactly the keys
+    (wallet, isBinding, t.id, j) of the staking / binding outputs paying an owned address whose credit was present;
+    nothing is removed; credits of other transactions keep amount / class / script hash -/
+theorem rollback_loop_recreates_credits (c : Ctx) (b : Block) (blk : BlockMeta) (hbnd : (b.txs.map (·.id)).Nodup)
+    (l : List TxId) (a a' : RbAcc) (h : l.foldlM (MW.Lemmas.PendHist.rbStep c blk) a = .ok a') (hnd : l.Nodup)
+    (hrec : ∀ id ∈ l, ∃ loc t, AMap.get a.s.txrecs (id, blk) = some loc ∧ c.node.txByFileLoc loc = some t ∧
+      t.id = id ∧ t ∈ b.txs) :
+    CredGrow c.own blk (fun t => t ∈ b.txs ∧ t.id ∈ l) a.s a'.s := rbLoopC c b blk hbnd l a a' h hnd hrec
+
+/-- the hypotheses are met by the tip block B2 of the concrete history below: its block record lists T1 only (the
+    coinbase C2 pays a stranger), the ids of the block are distinct -/
+example : (exB2.txs.map (·.id)).Nodup ∧ ["T1"].Nodup := by decide
+
+open MW.Lemmas.PendHist.CredRb in
+/-- DISCONNECT keeps the credit relation (store level): from a store satisfying C01's `Inv` for the chain `c0 ++ [b]`,
+    `PendRel` and `CredRel` for `P`, after `disconnectBlock` of the tip — whose pending records are the list `P'`
+    (`disconnect_refines_inv` provides `P' = onChainMoved … P`) — `CredRel` holds for `P'`.  The values of the
+    re-created records are C01's (`MW.Props.C01.inv_credit_values`), their presence `inv_cb_credits`. -/
+theorem disconnect_refines_credits (rank : TxId → Nat) (E : HEnv) (n : Node) (s s' : Store) (c0 : List Block) (b : Block)
+    (P P' : List Tx)
+    (hI : Inv (E.ctx n) s (c0 ++ [b])) (hV : ChainValid E.own (c0 ++ [b])) (hH : HeightsOK (c0 ++ [b]))
+    (hk : AMap.get n.known b.id = some b)
+    (hrel : PendRel rank s P) (hcr : CredRel E.env s P) (hcons : Consistent (c0 ++ [b]) P)
+    (hbnd : (b.txs.map (·.id)).Nodup) (hrk : ∀ t ∈ b.txs, ∀ i ∈ t.ins, rank i.tx < rank t.id)
+    (h : disconnectBlock (E.ctx n) s b.height = .ok s')
+    (hrel' : PendRel rank s' P') : CredRel E.env s' P' :=
+  disconnect_cred_store rank E n s s' c0 b P P' hI hV hH hk hrel hcr hcons hbnd hrk h hrel'
+
+open MW.Lemmas.PendHist.CredRb in
+/-- … and at history level: a disconnect step inside the domain of `pending_refines` keeps `HInvC` -/
+theorem disconnect_step_credits (rank : TxId → Nat) (E : HEnv) (w : HW) (H : HInvC rank E w)
+    (D : HOK rank E w .disconnect) : HInvC rank E (stepH E w .disconnect) :=
+  hinvc_step_full H .disconnect D
+
+open MW.Lemmas.PendHist.CredRb in
+/-- CREDIT RELATION ALONG ALL HISTORIES (Round 6; `credit_refines_partial` without its hypothesis).  From a world
+    satisfying `HInvC`, for every history inside `HOKf` = the domain `HOK` of `pending_refines` with the receive domain
+    WITHOUT its residue clause — nothing is assumed about the two buckets —, after the history `HInv` and `CredRel` hold,
+    and the raw dump `pcred` of the model is the specification's `pendingCredits` -/
+theorem credit_refines (rank : TxId → Nat) (E : HEnv) (w : HW) (evs : List HEv) (H : HInvC rank E w)
+    (hD : ∀ x ∈ worldsH E w evs, HOKf rank E x.1 x.2) :
+    HInvC rank E (runH E w evs) ∧
+    (∀ id j amt, (∃ cr, AMap.get (runH E w evs).s.pendCred (id, j) = some cr ∧ cr.amt = amt) ↔
+      (id, j, amt) ∈ pendingCredits E.env (runH E w evs).sp.pend) :=
+  have h := hinvc_run_full evs w H hD
+  ⟨h, h.cred.pcred h.inv.rel.nodup⟩
+
+open MW.Lemmas.PendHist.CredRb in
+/-- non-vacuity: the history of `pending_refines` EXTENDED BY A DISCONNECT of B2 (T1 is un-confirmed: Rollback re-creates
+    its pending credit from the mined one) is inside `HOKf` from the fresh wallet; after it both pending sets are
+    {T1, T2}, the pending-credit bucket holds exactly (T1, 0) ↦ amount 10, standard, script hash A1 = the spec's -/
+example : HInvC exRankH exE exW0 := exHInvC0
+open MW.Lemmas.PendHist.CredRb in
+example : ∀ x ∈ worldsH exE exW0 exEvs6, HOKf exRankH exE x.1 x.2 := exDomainF
+open MW.Lemmas.PendHist.CredRb in
+example : HOK exRankH exE exW5 .disconnect := exD6
+open MW.Lemmas.PendHist.CredRb in
+example :
+    ((runH exE exW0 exEvs6).s.pending.map (·.1), (runH exE exW0 exEvs6).sp.pend.map (·.id)) = (["T1", "T2"], ["T2", "T1"]) ∧
+    (runH exE exW0 exEvs6).s.pendCred.map (fun e => (e.1, e.2.amt, e.2.cls, e.2.sh)) = [(("T1", 0), 10, .standard, "A1")] ∧
+    pendingCredits exE.env (runH exE exW0 exEvs6).sp.pend = [("T1", 0, 10)] := exRun6
+
 end credits
 
 -- ------------------------------------------------------------------ what is NOT proved here
@@ -535,19 +605,28 @@ def C09_full_notify_refinement (Domain : Spec.Pending.Env → List Block → Lis
              Spec.Pending.onChainMoved e cp.1 (c0 ++ old.take (old.length - k - 1)) cp.2))
           (c0 ++ old, P))).2
 
-/-- STILL OPEN (2): the credit relation along ALL histories of `pending_refines`, i.e. `credit_refines_partial` without the
-    hypothesis at the disconnect steps.  Proved: receive, connect, the purge of disconnect, and — given the relation —
-    the statement below (`credit_refines_partial`, second component).  Missing: the per-record loop of Rollback
-    re-creates the pending credits / deposit records of the un-confirmed transactions with the values of the mined
-    credit table. -/
-def C09_full_credit_relation : Prop :=
+/-- FORMERLY OPEN (2), PROVED in Round 6: the credit relation along ALL histories of `pending_refines`, i.e.
+    `credit_refines_partial` without the hypothesis at the disconnect steps.  Receive, connect and the purge of disconnect
+    were proved in Round 5; the missing piece — the per-record loop of Rollback re-creates the pending credits / deposit
+    records of the un-confirmed transactions with the values of the mined credit table — is `rollback_loop_recreates_credits`
+    + C01's `inv_credit_values` (lemmas: MW/Lemmas/PendHistCredRollback.lean, MW/Lemmas/LedgerCredVal.lean).  The statement
+    is the one the former `def` had. -/
+theorem C09_full_credit_relation :
   ∀ (rank : TxId → Nat) (E : MW.Lemmas.PendHist.HEnv) (w : MW.Lemmas.PendHist.HW) (evs : List MW.Lemmas.PendHist.HEv),
     MW.Lemmas.PendHist.Cred.HInvC rank E w →
     (∀ x ∈ MW.Lemmas.PendHist.worldsH E w evs,
       match x.2 with
       | .recv t => MW.Lemmas.PendHist.Cred.RecvDomC rank E x.1 t
       | ev => MW.Lemmas.PendHist.HOK rank E x.1 ev) →
-    MW.Lemmas.PendHist.Cred.CredRel E.env (MW.Lemmas.PendHist.runH E w evs).s (MW.Lemmas.PendHist.runH E w evs).sp.pend
+    MW.Lemmas.PendHist.Cred.CredRel E.env (MW.Lemmas.PendHist.runH E w evs).s (MW.Lemmas.PendHist.runH E w evs).sp.pend :=
+  MW.Lemmas.PendHist.CredRb.credit_relation_full
+
+/-- the hypotheses of `C09_full_credit_relation` are met by the fresh wallet and the history with a disconnect step -/
+example : ∀ x ∈ MW.Lemmas.PendHist.worldsH MW.Lemmas.PendHist.exE MW.Lemmas.PendHist.exW0 MW.Lemmas.PendHist.CredRb.exEvs6,
+    match x.2 with
+    | .recv t => MW.Lemmas.PendHist.Cred.RecvDomC MW.Lemmas.PendHist.exRankH MW.Lemmas.PendHist.exE x.1 t
+    | ev => MW.Lemmas.PendHist.HOK MW.Lemmas.PendHist.exRankH MW.Lemmas.PendHist.exE x.1 ev :=
+  MW.Lemmas.PendHist.CredRb.exDomainF_match
 
 /-- the former schematic statement over driver strings (kept for reference; `pending_refines` is its typed form) -/
 def C09_full_history_refinement (Domain : List (List String) → Prop)
